@@ -1,8 +1,180 @@
-(* C11 — exact arithmetic is mathematically exact and canonical. *)
-From Coq Require Import QArith Qabs Qround.
+(* C11 — Exact arithmetic is mathematically exact and canonical.
+   Property theorems only; every proof is [exact <lemma>].
+
+   Vocabulary (proofs/C11_proofs.v):
+     exact n      := n is not a float
+     exactc n     := exact n and n is in Elvish's canonical form (machine int in
+                     [-2^63, 2^63), big int outside, rational reduced with
+                     denominator <> 1)
+     good v q     := v is exact, canonical, and its value (qv v) is == q in Q
+   [call c args step] is the model of the builtin c run through goFn.Call
+   (arity, the Go function, vals.FromGo on every output).  qsum/qprod/Qpower/
+   Qabs/Qfloor/... are plain rational arithmetic on Coq's Q. *)
+From Coq Require Import QArith Qabs Qround Qpower.
 From verif Require Import lib.Base model.C11_Num model.C11 proofs.C11_proofs.
 Open Scope Z_scope.
 
-Theorem C11_pow_zero_neg_panics : call CPow [NInt 0; NInt (-1)] None = RPanic.
-Proof. exact pow_zero_neg_panics. Qed.
-Print Assumptions C11_pow_zero_neg_panics.
+(* + of any number (0..) of exact arguments is the exact sum, canonical *)
+Theorem C11_add_exact : forall l, Forall exact l ->
+  exists v, call CAdd l None = RVals [v] /\ good v (qsum (map qv l)).
+Proof. exact add_exact. Qed.
+Print Assumptions C11_add_exact.
+
+(* - negates a single argument and otherwise subtracts the rest from the first *)
+Theorem C11_sub_exact : forall a r, Forall exact (a :: r) ->
+  exists v, call CSub (a :: r) None = RVals [v] /\
+    good v (match r with [] => - qv a | _ => qv a - qsum (map qv r) end)%Q.
+Proof. exact sub_exact. Qed.
+Print Assumptions C11_sub_exact.
+
+Theorem C11_mul_exact : forall l, Forall exact l ->
+  exists v, call CMul l None = RVals [v] /\ good v (qprod (map qv l)).
+Proof. exact mul_exact. Qed.
+Print Assumptions C11_mul_exact.
+
+(* any exact 0 among the divisors raises, whatever the other arguments are
+   (exact or inexact) *)
+Theorem C11_div_by_exact_zero_raises : forall a r,
+  existsb is_int0 r = true -> call CDiv (a :: r) None = RErr EDivZero.
+Proof. exact div_by_exact_zero_raises. Qed.
+Print Assumptions C11_div_by_exact_zero_raises.
+
+(* FULL STATEMENT (false of the faithful model, see C11_div_reciprocal_zero_refuted):
+     forall a r, Forall exactc (a :: r) ->
+       if some divisor (or, when r = [], a itself) is 0 then exists e, call CDiv (a::r) None = RErr e
+       else exists v, call CDiv (a :: r) None = RVals [v] /\
+            good v (match r with [] => / qv a | _ => qv a / qprod (map qv r) end).
+   The restriction below excludes only "/ 0" (reciprocal of exact zero). *)
+Theorem C11_div_exact_partial : forall a r, Forall exactc (a :: r) ->
+  existsb is_int0 r = false ->
+  ~ (is_int0 a = true /\ r = []) ->
+  exists v, call CDiv (a :: r) None = RVals [v] /\
+    good v (match r with [] => / qv a | _ => qv a / qprod (map qv r) end)%Q.
+Proof. exact div_exact. Qed.
+Print Assumptions C11_div_exact_partial.
+
+(* "/ 0", documented as 1/0, outputs 0 in the faithful model instead of raising *)
+Theorem C11_div_reciprocal_zero_refuted :
+  exists a, exactc a /\ (qv a == 0)%Q /\ call CDiv [a] None = RVals [NInt 0].
+Proof. exists (NInt 0). repeat split; reflexivity. Qed.
+Print Assumptions C11_div_reciprocal_zero_refuted.
+
+(* % on exact integers: truncated remainder, exception for divisor 0 *)
+Theorem C11_rem_exact : forall a b, exactc a -> exactc b ->
+  is_exact_int a = true -> is_exact_int b = true ->
+  (if is_int0 b then call CRem [a; b] None = RErr EDivZero
+   else exists v, call CRem [a; b] None = RVals [v] /\ good v (Z.rem (to_big a) (to_big b) # 1)).
+Proof. exact rem_exact. Qed.
+Print Assumptions C11_rem_exact.
+
+(* % on anything that is not an exact integer raises *)
+Theorem C11_rem_nonint_raises : forall a b,
+  is_exact_int a = false \/ is_exact_int b = false ->
+  call CRem [a; b] None = RErr ENotExactInt.
+Proof. exact rem_nonint_raises. Qed.
+Print Assumptions C11_rem_nonint_raises.
+
+(* FULL STATEMENT (false of the faithful model, see C11_pow_zero_neg_refuted):
+     forall b e, exactc b -> exactc e -> is_exact_int e = true ->
+       if is_int0 b && (to_big e <? 0) then exists x, call CPow [b; e] None = RErr x
+       else exists v, call CPow [b; e] None = RVals [v] /\ good v (qv b ^ to_big e).
+   The restriction below excludes only 0 to a negative power. *)
+Theorem C11_pow_exact_partial : forall b e, exactc b -> exactc e -> is_exact_int e = true ->
+  ~ (is_int0 b = true /\ to_big e < 0) ->
+  exists v, call CPow [b; e] None = RVals [v] /\ good v (Qpower (qv b) (to_big e)).
+Proof. exact pow_exact. Qed.
+Print Assumptions C11_pow_exact_partial.
+
+(* 0 to any negative exact integer power: the faithful model panics (Go:
+   big.Rat.Inv division by zero) where the property demands an exception *)
+Theorem C11_pow_zero_neg_refuted :
+  (exists e, exactc e /\ is_exact_int e = true /\ to_big e < 0 /\
+     call CPow [NInt 0; e] None = RPanic)
+  /\ forall e, is_exact_int e = true -> to_big e < 0 -> call CPow [NInt 0; e] None = RPanic.
+Proof. split; [exists (NInt (-1)); repeat split; reflexivity|exact pow_zero_neg_panics]. Qed.
+Print Assumptions C11_pow_zero_neg_refuted.
+
+(* math:min (lt = true) / math:max (lt = false) of 1.. exact arguments *)
+Theorem C11_minmax_exact : forall (lt : bool) a r, Forall exactc (a :: r) ->
+  exists v, call (if lt then CMin else CMax) (a :: r) None = RVals [v] /\
+    good v (fold_left (qpick lt) (map qv r) (qv a)).
+Proof. exact minmax_exact. Qed.
+Print Assumptions C11_minmax_exact.
+
+(* math:abs, including -2^63 whose absolute value needs a big int *)
+Theorem C11_abs_exact : forall n, exactc n ->
+  exists v, call CAbs [n] None = RVals [v] /\ good v (Qabs (qv n)).
+Proof. exact abs_exact. Qed.
+Print Assumptions C11_abs_exact.
+
+(* math:floor ceil trunc round (half away from zero) round-to-even, against
+   Qfloor / Qceiling / q_trunc / q_round / q_round_even on Q *)
+Theorem C11_rounding_exact : forall md n, exactc n ->
+  exists v, call (rcmd md) [n] None = RVals [v] /\ good v (rspec md (qv n) # 1).
+Proof. exact rounding_exact. Qed.
+Print Assumptions C11_rounding_exact.
+
+(* FULL STATEMENT (range_exact): for exact canonical start, end and step of any
+   representation and either direction, call CRange outputs exactly
+   start + k*step for k = 0 .. ceil((end-start)/step) - 1, each canonical, and never
+   ROutOfFuel.  Proved below in full (termination within the model's fuel included)
+   for machine ints, ascending, explicit step - the case in which the Go loop can
+   overflow: the values are start + k*step, all before the end, the next one would
+   not be, also when start + k*step passes 2^63 - 1 (the loop leaves instead of
+   wrapping).  The descending direction and the big-int/rational loops are covered
+   by the correspondence check only (reason in checks/C11.md). *)
+Theorem C11_range_exact_partial : forall s e st,
+  in_int s = true -> in_int e = true -> in_int st = true -> s <= e -> 0 < st ->
+  exists vs, call CRange [NInt s; NInt e] (Some (NInt st)) = RVals vs
+  /\ vs = map (fun k => NInt (s + Z.of_nat k * st)) (seq 0 (length vs))
+  /\ (forall k, (k < length vs)%nat -> s + Z.of_nat k * st < e)
+  /\ e <= s + Z.of_nat (length vs) * st.
+Proof. exact range_int_up_total. Qed.
+Print Assumptions C11_range_exact_partial.
+
+(* the documented exact-zero rules hold with inexact arguments too *)
+Theorem C11_exact_zero_rules :
+  (forall l, existsb is_int0 l = true -> existsb is_inf l = false ->
+     call CMul l None = RVals [NInt 0])
+  /\ (forall a r, is_int0 a = true -> existsb is_int0 r = false ->
+     call CDiv (a :: r) None = RVals [NInt 0]).
+Proof. split; [exact mul_exact_zero_rule|exact div_exact_zero_rule]. Qed.
+Print Assumptions C11_exact_zero_rules.
+
+(* canonical form: machine int iff it fits, big int otherwise, rational only
+   when reduced and not an integer *)
+Theorem C11_result_canonical : forall v q, good v q ->
+  match v with
+  | NInt z => min_int <= z <= max_int
+  | NBig z => ~ (min_int <= z <= max_int)
+  | NRat r => Qred r = r /\ Qden r <> 1%positive
+  | NFloat _ => False
+  end.
+Proof. exact result_canonical. Qed.
+Print Assumptions C11_result_canonical.
+
+(* the oracle evaluated on the implementation's observations implies the
+   Prop-level specification; and what the theorems above establish ([good])
+   passes the oracle's value test *)
+Theorem C11_oracle_sound : forall c args step obs,
+  check_C11 c args step obs = true -> Spec_C11 c args step obs.
+Proof. exact check_C11_sound. Qed.
+Print Assumptions C11_oracle_sound.
+
+Theorem C11_good_passes_oracle : forall v q, good v q -> val_good v q.
+Proof. exact good_val_good. Qed.
+Print Assumptions C11_good_passes_oracle.
+
+(* non-vacuity *)
+Example C11_ex_add : call CAdd [NInt 9223372036854775807; NInt 1] None = RVals [NBig 9223372036854775808].
+Proof. reflexivity. Qed.
+Example C11_ex_mix : call CAdd [NRat (1#3); NRat (2#3); NBig 9223372036854775808; NInt (-1)] None
+  = RVals [NBig 9223372036854775808].
+Proof. vm_compute. reflexivity. Qed.
+Example C11_ex_range : call CRange [NInt 9223372036854775800; NInt 9223372036854775807] (Some (NInt 5))
+  = RVals [NInt 9223372036854775800; NInt 9223372036854775805].
+Proof. vm_compute. reflexivity. Qed.
+Example C11_ex_oracle_rejects :
+  check_C11 CAdd [NInt 1; NInt 1] None (RVals [NBig 2]) = false
+  /\ check_C11 CPow [NInt 0; NInt (-1)] None RPanic = false.
+Proof. split; vm_compute; reflexivity. Qed.
